@@ -149,6 +149,7 @@ type Ctx struct {
 	Out      strings.Builder
 	NowReads int
 	OnNow    func() // called on every clock reading (after counting)
+	OnPrint  func(s string)
 }
 
 func (c *Ctx) Now() time.Time {
@@ -159,7 +160,12 @@ func (c *Ctx) Now() time.Time {
 	return c.Clock
 }
 
-func (c *Ctx) Print(s string) { c.Out.WriteString(s) }
+func (c *Ctx) Print(s string) {
+	if c.OnPrint != nil {
+		c.OnPrint(s)
+	}
+	c.Out.WriteString(s)
+}
 
 // CtxOpts configure a context the way a user's environment would.
 type CtxOpts struct {
